@@ -216,13 +216,13 @@ parser! {
             / c_comment()
             / c_another_comment()
 
-        // a block comment that is opened and never closed
-        rule unclosed_block() = "/*" (!"*/" [_])* ![_]
+        // what a block comment that is not closed on its line has in front of the place where c_block() gave up
+        rule open_block() = "/*" (!("*/" / "\n" / "\r") [_])*
 
-        // the pieces of a line in front of its trailing comment, without the quoted texts and the block comments;
-        // every alternative consumes what it has looked at, so that a long line is read once
+        // the pieces of a line in front of its trailing comment, without the quoted texts and the block comments (one
+        // that is not closed is code); every alternative consumes what it has looked at, so that a long line is read once
         pub rule code_part() -> Vec<&'input str>
-            = p:(string() { "" } / ch() { "" } / c_block() { "" } / c:$(unclosed_block()) { c } / c:$(!(";" / "//") [_]) { c })* [_]* { p }
+            = p:(string() { "" } / ch() { "" } / c_block() { "" } / c:$(open_block()) { c } / c:$(!(";" / "//") [_]) { c })* [_]* { p }
 
         // instruction line
         pub rule instruction_line() -> Document
@@ -259,7 +259,7 @@ parser! {
 
         // a pragma whose text is not a list of operands (`#pragma AVRPART CORE NEW_INSTRUCTIONS lpm rd,z+`): kept as text
         rule pragma_line() -> Document
-            = space() ("." / "#") "pragma" ne_space() t:$((!comment() [_])*) comment()? {
+            = space() ("." / "#") "pragma" ne_space() t:$((!(";" / "//" / "/*") [_])*) comment()? {
                 Document::DirectiveLine(Box::new(None), Directive::Pragma, DirectiveOps::OpList(vec![Operand::S(t.trim_end().to_string())]))
             }
 
